@@ -9,7 +9,7 @@ HOSTS = ["a.com", "A.CoM", "www.a.com", "b.a.co.uk", "xn--tlrama-bvab.fr", "tél
          "XN--TLRAMA-BVAB.FR", "xn--zz.fr", "a.com.", "1.2.3.4", "localhost"]
 PORTS = ["", ":80", ":443", ":8080", ":0", ":65535", ":"]
 PATHS = ["", "/", "/a", "/a/", "/a/b", "//", "/a//b", "/./", "/a/.", "/a/..", "/a/../", "/a/../b", "/..", "/../a",
-         "/a/./b/", "/a/%2E%2E/b", "/a/%2e/"]
+         "/a/./b/", "/a/%2E%2E/b", "/a/%2e/", "/a/b/%2E%2E", "/a/%2E", "/a/b/.%2E"]
 QUERIES = ["", "?", "?k", "?k=", "?k=v", "?k=v&l=w", "?l=w&k=v", "?k=v=w", "?k&k=", "?&", "?="]
 FRAGS = ["", "#", "#f", "#/r", "#!", "#!/r"]
 
